@@ -1,6 +1,7 @@
 /-
   Helper lemmas for C09 (3): where `ser k` members can come from.
 -/
+import J2M.Proofs.AuxGen
 import J2M.Sem
 import J2M.Proofs.StringsReg
 import J2M.Proofs.StringsUnion
